@@ -571,6 +571,9 @@ class CSVRecord(Record, ABC):
 
     @classmethod
     def load(cls, s: str) -> "CSVRecord":
+        if len(s) > csv.field_size_limit():
+            # a record is a single line, so no field is longer than the line (the csv module's default limit is 128 KiB)
+            csv.field_size_limit(len(s))
         list_repr = next(iter(csv.reader([s], delimiter=cls._delimiter)))
         arg_dict = {k: t(v) for k, t, v in zip(cls.field_names(), cls.field_types(), list_repr)}
         return cls(**arg_dict)
